@@ -3,7 +3,10 @@
 use crate::config::Config;
 
 use humphrey::http::mime::MimeType;
+#[cfg(not(humphrey_verif))]
 use std::{collections::VecDeque, time::SystemTime};
+#[cfg(humphrey_verif)]
+use {humphrey::verif::time::SystemTime, std::collections::VecDeque};
 
 /// Represents the server's cache.
 #[derive(Default)]
